@@ -91,16 +91,24 @@ def check_state_for_iface(rep, prog, rule):
         else:
             rep.fail(rule, 'state_for_iface|ret', '%s returns %s' % (LOOKUP, short(t)), node=fn, function=LOOKUP)
     # the lookup hands out existing records untouched: a store into one (recycling it for another interface, wiping it) loses
-    # what it owns (observation list, cached icon) and mixes two interfaces' state.  Re-linking (the `next` field) is list surgery.
+    # what it owns (observation list, cached icon) and mixes two interfaces' state.  That includes the link field: records are
+    # never released, the list is only ever extended at its head - re-linking existing records (move-to-front) can drop
+    # records, with everything they own, and whether a given surgery does is beyond this analysis (no shape analysis).
     nw = 0
+    from .frame_common import effects
+    seen_w = set()
     for st, v in outs:
-        for e in st.trace:
-            if e[0] != 'weak-store' or e[1] != 'RECS':
+        for e, _ctx in effects(st, 'weak-store'):          # (also those inside the iterations of the search loop)
+            if e[1] != 'RECS' or e in seen_w:
                 continue
+            seen_w.add(e)
             off, n = e[2], e[3]
-            if off is not None and next_off <= off and off + n <= next_off + W:
-                continue
             nw += 1
+            if off is not None and next_off <= off and off + n <= next_off + W:
+                rep.fail(rule, 'state_for_iface|relinks-existing', '%s stores into the link field of an already existing interface record: records are only ever added at the '
+                         'head of the list; a re-linked list can lose records - and with them the observations and the mapper state of their interfaces' % LOOKUP,
+                         node=fn, function=LOOKUP)
+                continue
             rep.fail(rule, 'state_for_iface|writes-existing', '%s stores into an already existing interface record (bytes %s+%d): the record\'s observation list and cached '
                      'icon are owned through it and its state belongs to another interface' % (LOOKUP, 'at a computed offset' if off is None else off, n), node=fn, function=LOOKUP)
     if not nw:
